@@ -10,6 +10,7 @@
 #include "vtrace.h"
 #include <fstream>
 #include <map>
+#include <algorithm>
 #include "libavoid/libavoid.h"
 #include "libvpsc/assertions.h"
 using namespace Avoid;
@@ -243,6 +244,85 @@ static int histMode(const char *inFile, const char *outFile)
     return 0;
 }
 
+// ---------------------------------------------------------------------------
+// C20: reproducibility and frame independence.  For every scene: run A; unrelated work (allocations, another
+// router); run B (same calls); a translated copy (offset k * 2^-10); the 7 non-identity symmetries of the square.
+static void sceneTransform(const Scene &s, int t, Scene &o)
+{
+    // t: 0 id, 1 rot90 (x,y)->(-y,x), 2 rot180, 3 rot270 (y,-x), 4 flip x, 5 flip y, 6 transpose, 7 anti-transpose
+    auto f = [&](int x, int y, int &X, int &Y) {
+        switch (t) { case 0: X = x; Y = y; break; case 1: X = -y; Y = x; break; case 2: X = -x; Y = -y; break; case 3: X = y; Y = -x; break;
+                     case 4: X = -x; Y = y; break; case 5: X = x; Y = -y; break; case 6: X = y; Y = x; break; default: X = -y; Y = -x; }
+    };
+    o = s;
+    for (auto &sh : o.shapes) {
+        for (auto &p : sh) { int X, Y; f(p.first, p.second, X, Y); p.first = X; p.second = Y; }
+        // keep the winding positive: reflections reverse it
+        long long a2 = 0; for (size_t i = 0; i < sh.size(); i++) { auto &p = sh[i], &q = sh[(i + 1) % sh.size()]; a2 += (long long)p.first * q.second - (long long)q.first * p.second; }
+        if (a2 < 0) std::reverse(sh.begin(), sh.end());
+    }
+    for (auto &c : o.conns) { int X, Y; f(c.sx, c.sy, X, Y); c.sx = X; c.sy = Y; f(c.dx, c.dy, X, Y); c.dx = X; c.dy = Y; }
+}
+
+static void runScene(const Scene &s, double ox, double oy, std::vector<std::vector<Point> > &raw, std::vector<std::vector<Point> > &disp, bool &thrown)
+{
+    thrown = false; raw.clear(); disp.clear();
+    Router *router = new Router(s.mode ? OrthogonalRouting : PolyLineRouting);
+    applyOpts(router, s);
+    std::vector<ConnRef *> conns;
+    try {
+        for (auto &sh : s.shapes) { Polygon poly((int)sh.size()); for (size_t i = 0; i < sh.size(); i++) poly.ps[i] = Point(sh[i].first + ox, sh[i].second + oy); new ShapeRef(router, poly); }
+        for (auto &c : s.conns) conns.push_back(new ConnRef(router, ConnEnd(Point(c.sx + ox, c.sy + oy)), ConnEnd(Point(c.dx + ox, c.dy + oy))));
+        router->processTransaction();
+        for (auto c : conns) { raw.push_back(c->route().ps); disp.push_back(c->displayRoute().ps); }
+    } catch (...) { thrown = true; }
+    if (!thrown) delete router;
+}
+
+static int frameMode(const char *inFile, const char *outFile, uint64_t seed)
+{
+    std::ifstream in(inFile);
+    vt::Out out(outFile);
+    out.line(std::string("{\"chunk\":10,\"recs\":["));
+    vt::Rng rng(seed);
+    Scene s; bool first = true;
+    while (readScene(in, s)) {
+        std::vector<std::vector<Point> > rawA, dispA, rawB, dispB, rawT, dispT, rawS, dispS;
+        bool tA, tB, tT, tS;
+        runScene(s, 0, 0, rawA, dispA, tA);
+        // unrelated work between the two runs
+        std::vector<void *> junk; for (int q = 0; q < 300; q++) junk.push_back(malloc(24 + (rng.next() % 2000)));
+        { Scene other; sceneTransform(s, 1 + (int)(rng.next() % 7), other); std::vector<std::vector<Point> > r1, r2; bool t; runScene(other, 3, 5, r1, r2, t); }
+        for (size_t q = 0; q < junk.size(); q += 3) free(junk[q]);
+        runScene(s, 0, 0, rawB, dispB, tB);
+        for (size_t q = 0; q < junk.size(); q++) if (q % 3) free(junk[q]);
+        int kx = (int)(rng.next() % 32769) - 16384, ky = (int)(rng.next() % 32769) - 16384;
+        runScene(s, kx / 1024.0, ky / 1024.0, rawT, dispT, tT);
+        vt::J j; j.obj(); sceneJson(j, s);
+        j.k("thrown").b(tA || tB || tT).k("kx").i(kx).k("ky").i(ky);
+        auto limbRoutes = [&](const char *key, std::vector<std::vector<Point> > &R) {
+            j.k(key).arr(); for (auto &r : R) { j.arr(); for (auto &p : r) { vt::limbs(j, p.x); vt::limbs(j, p.y); } j.end(); } j.end(); };
+        auto latRoutes = [&](const char *key, std::vector<std::vector<Point> > &R) {
+            j.k(key).arr(); for (auto &r : R) { j.arr(); for (auto &p : r) j.arr().i(vt::onLat(p.x, LS) ? llround(p.x * LS) : 2000000000).i(vt::onLat(p.y, LS) ? llround(p.y * LS) : 2000000000).end(); j.end(); } j.end(); };
+        limbRoutes("rawA", rawA); limbRoutes("rawB", rawB); limbRoutes("dispA", dispA); limbRoutes("dispB", dispB);
+        latRoutes("latA", rawA); latRoutes("latT", rawT);
+        // displayed routes under translation: largest deviation from (disp + offset), in units of 1e-12
+        double dev = 0; bool shape = dispA.size() == dispT.size();
+        for (size_t c = 0; shape && c < dispA.size(); c++) {
+            if (dispA[c].size() != dispT[c].size()) { shape = false; break; }
+            for (size_t i = 0; i < dispA[c].size(); i++) dev = std::max(dev, std::max(fabs(dispT[c][i].x - (dispA[c][i].x + kx / 1024.0)), fabs(dispT[c][i].y - (dispA[c][i].y + ky / 1024.0))));
+        }
+        j.k("dispShape").b(shape).k("dispDevE12").i(std::isfinite(dev) ? (long long)std::min(dev * 1e12, 2e9) : 2000000000);
+        // symmetries: raw routes of the transformed scenes (integer lattice)
+        j.k("sym").arr();
+        for (int t = 1; t < 8; t++) { Scene o; sceneTransform(s, t, o); runScene(o, 0, 0, rawS, dispS, tS); j.obj().k("t").i(t).k("thrown").b(tS); latRoutes("lat", rawS); j.end(); }
+        j.end().end();
+        out.line((first ? "" : ",") + j.out); first = false;
+    }
+    out.line(std::string("]}"));
+    return 0;
+}
+
 namespace Avoid { int bends(const Point &curr, unsigned int currDir, const Point &dest, unsigned int destDir); }
 
 // every relative position (non-coincident) x travel direction x entry direction of the real estimator
@@ -266,6 +346,7 @@ int main(int argc, char **argv)
 {
     if (argc >= 3 && std::string(argv[1]) == "bends") return bendsMode(argv[2]);
     if (argc >= 4 && std::string(argv[1]) == "hist") return histMode(argv[2], argv[3]);
+    if (argc >= 5 && std::string(argv[1]) == "frame") return frameMode(argv[2], argv[3], strtoull(argv[4], 0, 10));
     if (argc >= 4 && std::string(argv[1]) == "scenes") return scenesMode(argv[2], argv[3], argc > 4 ? argv[4] : "20");
     return 2;
 }
